@@ -32,6 +32,7 @@ class SymCtx:
 
     def __init__(self, e: K.Engine):
         self.e = e
+        self.info: Any = None
 
     def var(self, name: str, lo: Optional[int] = None, hi: Optional[int] = None) -> Any:
         return self.e.int_var(name, lo, hi)
@@ -55,10 +56,10 @@ class SymCtx:
             raise K.Infeasible()
 
     def check(self, cond: Any, label: str) -> None:
-        self.e.check(cond, label)
+        self.e.check(cond, label, self.info)
 
     def fail(self, label: str) -> None:
-        self.e.check(False, label)
+        self.e.check(False, label, self.info)
 
 
 class ConCtx:
@@ -451,3 +452,205 @@ def _scan_spec_symbolic(ctx: Any, P: Any, n: int, r: int, a: Any, b: Any, m_s: A
 
     e.check(z3.And(*conj) if conj else z3.BoolVal(True),
             "collectIntervals == maximal runs >= minimum length, clipped to the window, in order", info)
+
+
+# ---- C13 differential bodies (py fallback vs Cython body, same inputs, same path) ----------
+
+def _call(fn: Any) -> tuple[str, Any]:
+    try:
+        return ("ok", fn())
+    except IndexError:
+        return ("IndexError", None)
+    except OverflowError:
+        return ("OverflowError", None)
+
+
+def _same(ctx: Any, a: tuple[str, Any], b: tuple[str, Any], label: str, conv: Any = None) -> None:
+    if a[0] != b[0]:
+        ctx.fail(f"{label}: py -> {a[0]}, cy -> {b[0]}")
+        return
+    if a[0] == "ok":
+        x, y = a[1], b[1]
+        if conv is not None:
+            x, y = conv(x), conv(y)
+        ctx.check(x == y, f"{label}: same value")
+
+
+def body_diff_sb(ctx: Any, py: Impl, cy: Impl, r: int, maxlen: int = W31) -> None:
+    """Scoreboard.idxToDate / dateToIdx through the wrapper with _USE_CYTHON False vs True"""
+    m = sb_module()
+    L = ctx.var("L", 0, maxlen)
+    start, end = ctx.time(0), ctx.time(L)
+    with K.patched_globals(m, **py.patches("scoreboard")):
+        sb = make_scoreboard(ctx, start, end, r)
+    i = ctx.var("i", -W31 // 4096, W31 // r + 2)
+    t = ctx.var("t", -W31, 2 * W31)
+    for force in (False, True):
+        with K.patched_globals(m, **py.patches("scoreboard")):
+            a1 = _call(lambda: sb.idxToDate(i, force))
+            a2 = _call(lambda: sb.dateToIdx(ctx.time(t), force))
+        with K.patched_globals(m, **cy.patches("scoreboard")):
+            b1 = _call(lambda: sb.idxToDate(i, force))
+            b2 = _call(lambda: sb.dateToIdx(ctx.time(t), force))
+        _same(ctx, a1, b1, f"idxToDate(i, force={force})", ctx.off)
+        _same(ctx, a2, b2, f"dateToIdx(t, force={force})")
+
+
+def body_diff_project(ctx: Any, py: Impl, cy: Impl, g: int) -> None:
+    pm = project_module()
+    P = pm.Project
+    st = _ProjStub(ctx.time(0), ctx.time(86400), g)
+    i = ctx.var("i", -W31 // 4096, W31 // g + 1024)
+    t = ctx.var("t", -W31, 2 * W31)
+    with K.patched_globals(pm, **py.patches("project")):
+        a1 = _call(lambda: P.idxToDate(st, i))
+        a2 = _call(lambda: P.dateToIdx(st, ctx.time(t)))
+    with K.patched_globals(pm, **cy.patches("project")):
+        b1 = _call(lambda: P.idxToDate(st, i))
+        b2 = _call(lambda: P.dateToIdx(st, ctx.time(t)))
+    _same(ctx, a1, b1, "Project.idxToDate(i)", ctx.off)
+    _same(ctx, a2, b2, "Project.dateToIdx(t)")
+
+
+class KDict:
+    """dict with symbolic-integer keys: membership / lookup fork over the (small) key range"""
+
+    def __init__(self, d: dict, lo: int, hi: int):
+        self.d, self.lo, self.hi = d, lo, hi
+
+    def _k(self, k: Any) -> int:
+        return K.concretize_small(k, self.lo, self.hi, "dict key") if isinstance(k, K.SInt) else k
+
+    def __contains__(self, k: Any) -> bool:
+        return self._k(k) in self.d
+
+    def __getitem__(self, k: Any) -> Any:
+        return self.d[self._k(k)]
+
+    def get(self, k: Any, default: Any = None) -> Any:
+        return self.d.get(self._k(k), default)
+
+
+class _FakeDT:
+    def __init__(self, wd: Any, h: Any, mi: Any):
+        self._wd, self.hour, self.minute = wd, h, mi
+
+    def weekday(self) -> Any:
+        return self._wd
+
+
+class _WHProj:
+    def __init__(self, dt: Any):
+        self._dt = dt
+
+    def idxToDate(self, idx: Any) -> Any:
+        return self._dt
+
+    def isWorkingTime(self, idx: Any) -> bool:
+        raise K.HarnessError("fallback calendar must not be reached with custom hours")
+
+
+def make_hours(ctx: Any, nint: int) -> tuple[Any, list]:
+    """up to `nint` intervals on each of two symbolic weekdays; returns (_hours mapping, description)"""
+    d1 = ctx.var("d1", 0, 6)
+    d2 = ctx.var("d2", 0, 6)
+    if ctx.symbolic:
+        d1 = K.concretize_small(d1, 0, 6)
+        d2 = K.concretize_small(d2, 0, 6)
+    hours: dict[int, list] = {}
+    desc = []
+    for dn, d in (("a", d1), ("b", d2)):
+        for k in range(nint):
+            use = ctx.var(f"use_{dn}{k}", 0, 1)
+            if ctx.symbolic:
+                use = K.concretize_small(use, 0, 1)
+            if not use:
+                continue
+            sh, sm = ctx.var(f"sh_{dn}{k}", 0, 23), ctx.var(f"sm_{dn}{k}", 0, 59)
+            eh, em = ctx.var(f"eh_{dn}{k}", 0, 24), ctx.var(f"em_{dn}{k}", 0, 59)
+            hours.setdefault(d, []).append(((sh, sm), (eh, em)))
+            desc.append((d, sh, sm, eh, em))
+    return (KDict(hours, -2, 8) if ctx.symbolic else hours), desc
+
+
+def body_diff_wh(ctx: Any, py: Impl, cy: Impl, nint: int) -> None:
+    """WorkingHours.onShift with _USE_CYTHON False vs True"""
+    wm = wh_module()
+    wd, h, mi = ctx.var("weekday", 0, 6), ctx.var("hour", 0, 23), ctx.var("minute", 0, 59)
+    wh = wm.WorkingHours(_WHProj(_FakeDT(wd, h, mi)))
+    wh._hours, _ = make_hours(ctx, nint)
+    wh._custom_hours_set = True
+    with K.patched_globals(wm, **py.patches("working_hours")):
+        a = _call(lambda: wh.onShift(0))
+    with K.patched_globals(wm, **cy.patches("working_hours")):
+        b = _call(lambda: wh.onShift(0))
+    if ctx.symbolic:
+        conv = K.kbool
+    else:
+        conv = bool
+    _same(ctx, a, b, "WorkingHours.onShift", conv)
+
+
+def body_diff_scan(ctx: Any, py: Impl, cy: Impl, r: int, nmax: int) -> None:
+    from scriptplan.utils.time import TimeInterval
+
+    m = sb_module()
+    L = ctx.var("L", 0, (nmax - 1) * r)
+    with K.patched_globals(m, **py.patches("scoreboard")):
+        sb = make_scoreboard(ctx, ctx.time(0), ctx.time(L), r)
+    if ctx.symbolic:
+        n = K.concretize_small(sb.size, 1, nmax, "scoreboard size")
+        P = z3.Function("P", z3.IntSort(), z3.BoolSort())
+
+        def pred(v: Any) -> Any:
+            if not isinstance(v, SlotVal):
+                return False
+            it = K._it(v.idx)
+            return K.SBool(z3.And(it >= 0, it < n, P(it)))
+
+        ctx.info = lambda mdl: {"pattern": [bool(z3.is_true(mdl.eval(P(k), model_completion=True))) for k in range(n)]}
+    else:
+        n = sb.size
+        pat = ctx.inputs.get("pattern", [])
+        sb.sb = [bool(pat[k]) if k < len(pat) else False for k in range(n)]
+
+        def pred(v: Any) -> Any:
+            return v is True
+    a = ctx.var("a", -r, L + r)
+    b = ctx.var("b", -r, L + r)
+    ctx.assume(a <= b)
+    m_s = ctx.var("mind", 0, 4 * r)
+    with K.patched_globals(m, **py.patches("scoreboard")):
+        g1 = sb.collectIntervals(TimeInterval(ctx.time(a), ctx.time(b)), m_s, pred)
+    with K.patched_globals(m, **cy.patches("scoreboard")):
+        g2 = sb.collectIntervals(TimeInterval(ctx.time(a), ctx.time(b)), m_s, pred)
+    if len(g1) != len(g2):
+        ctx.fail(f"collectIntervals: py returns {len(g1)} intervals, cy {len(g2)}")
+        return
+    for x, y in zip(g1, g2):
+        ctx.check((ctx.off(x.start) == ctx.off(y.start)) & (ctx.off(x.end) == ctx.off(y.end)), "collectIntervals: same intervals")
+
+
+def body_diff_daily_hours(ctx: Any, py: Impl, cy: Impl, nint: int) -> None:
+    """WorkingHours.get_daily_hours: C returns a 32-bit float, Python a double - decided bit-precisely (z3 FP)"""
+    wm = wh_module()
+    wh = wm.WorkingHours(_WHProj(None))
+    ivs = []
+    for k in range(nint):
+        sh, sm = ctx.var(f"sh{k}", 0, 23), ctx.var(f"sm{k}", 0, 59)
+        eh, em = ctx.var(f"eh{k}", 0, 24), ctx.var(f"em{k}", 0, 59)
+        ivs.append(((sh, sm), (eh, em)))
+    wh._hours = {0: ivs}
+    if ctx.symbolic:
+        ctx.e.fp_precise = True
+    pp, cp = py.patches("working_hours"), cy.patches("working_hours")
+    if ctx.symbolic:
+        from ksym.fp import kfloat_fp
+
+        pp["float"] = kfloat_fp
+        cp["float"] = kfloat_fp
+    with K.patched_globals(wm, **pp):
+        a = wh.get_daily_hours(0)
+    with K.patched_globals(wm, **cp):
+        b = wh.get_daily_hours(0)
+    ctx.check(a == b, "get_daily_hours: same value (C float vs Python double)")
